@@ -8,8 +8,10 @@ import (
 	"fmt"
 	"math"
 	"math/rand"
+	"os"
 	"sort"
 	"strconv"
+	"strings"
 	"time"
 
 	"github.com/unixpickle/model3d/model2d"
@@ -727,6 +729,22 @@ func init() {
 				discs = append(discs, fanDisc(rng, n))
 				discNames = append(discNames, "fan")
 			}
+			// a solve that does not come back within its deadline leaves a spinning goroutine behind: after three of
+			// them the stage stops here, and the records so far (with the three marked "hang") are judged
+			hangs := 0
+			emitF := func(r floaterRec) {
+				out.write(r)
+				if strings.HasPrefix(r.Panic, "hang") {
+					hangs++
+					if hangs >= 3 {
+						stats["aborted_after_hangs"] = 1
+						stats["records"] = out.n
+						out.close()
+						writeJSONFile(a.str("stats", "stats.json"), stats)
+						os.Exit(0)
+					}
+				}
+			}
 			for _, n := range []int{15, 16, 17, 24, 40} {
 				discs = append(discs, hubDisc(rng, n))
 				discNames = append(discNames, "hub")
@@ -735,14 +753,14 @@ func init() {
 				for _, w := range []string{"uniform", "chord", "shape"} {
 					for _, b := range []string{"circle", "square", "pnorm", []string{"pnorm1", "pnorm1.5", "pnorm3", "pnorm5", "pnorm2"}[(i+len(w))%5]} {
 						id++
-						out.write(floaterRun(id, discNames[i], d, w, b))
+						emitF(floaterRun(id, discNames[i], d, w, b))
 					}
 				}
 			}
 			for _, w := range []string{"uniform", "chord", "shape"} {
 				for _, b := range []string{"diamond", "circle"} {
 					id++
-					out.write(floaterRun(id, "symfan", symFan(), w, b))
+					emitF(floaterRun(id, "symfan", symFan(), w, b))
 				}
 			}
 			// ---- StretchMinimizingParameterization on the same discs (boundary fixed, no flips), ExtendBoundaryUVs
@@ -751,7 +769,7 @@ func init() {
 					b := []string{"circle", "square", "pnorm"}[(i+k)%3]
 					opt := []stretchOpt{{3, 1}, {-1, 1}, {2, 0.5}, {1, 1}}[(i+2*k)%4]
 					id++
-					out.write(floaterRunX(id, discNames[i], d, w, b, &opt))
+					emitF(floaterRunX(id, discNames[i], d, w, b, &opt))
 				}
 			}
 			extDiscs, extNames := append([]*model3d.Mesh{paramMesh("disc")}, discs...), append([]string{"disc"}, discNames...)
